@@ -634,8 +634,29 @@ class Gen:
         if name:
             e2[name] = "fn%d" % k
         nb = 1 if r.random() < 0.7 else 2
+        shape = r.random()
+        if shape < 0.1:
+            # variadic arity selected by the k-argument calls: j fixed parameters, the other k - j arguments arrive as the rest seq
+            j = r.randint(0, k)
+            rest = self.param_name(params)
+            self.param_names.add(rest)
+            e3 = {n: t for n, t in e2.items() if n not in params[j:]}
+            e3[rest] = "any"
+            body = [self.expr("any", e3, d - 1) for _ in range(nb)]
+            return ("fn", name, [(params[:j], rest, body)])
         body = [self.expr("any", e2, d - 1) for _ in range(nb)]
         arities = [(params, None, body)]
+        if shape < 0.2 and k >= 1:
+            # two live arities: the k-argument calls select the first, its body may call the (k-1)-argument arity through the fn's own name
+            own = name or "self-fn"
+            e4 = {n: t for n, t in env0.items()}
+            short = params[:-1]
+            for p in short:
+                e4[p] = "any"
+            arities.append((short, None, [self.expr("any", e4, d - 2)]))
+            arities[0] = (params, None, body + [("call", ("local", own), [("local", p) for p in short])])
+            e2[own] = "fn%d" % (k - 1)
+            return ("fn", own, arities)
         if r.random() < 0.15:
             # add a second arity that is never selected by the calls we generate (k+1 fixed params)
             extra = list(params) + ["zz"]
@@ -684,6 +705,18 @@ class Gen:
             return self.letfn(ty, env, d)
         if c < 0.97 and ty == "any":
             return ("throw", r.choice(["ValueError", "KeyError", "ExceptionInfo"]), "m")
+        if self.allow_def and c < 0.985:
+            # a def wherever the form sits (fn body, branch, loop): what follows it in the same do reads the new value
+            g = r.choice(GLOBAL_NAMES)
+            if g not in env:
+                had = g in self.globals
+                t = self.globals[g] if had else r.choice(["int", "any"])
+                d_expr = ("def", g, self.expr(t, env, d - 2))
+                self.globals[g] = t
+                cont = self.expr(ty, env, d - 1, tail)
+                if not had:
+                    del self.globals[g]  # code generated later must not rely on a def that may not have run
+                return ("do", [d_expr, cont])
         return self._expr(ty, env, 0)
 
     def loop(self, ty, env, d, force_acc=False):
